@@ -1,2 +1,2 @@
 """Bounded stand-ins (labelled bounded in evidence, never counted as proved)."""
-REGISTRY = {}     # property id -> [stand-in name]; each name is a module bounded/<name>.py with run(tier, seed)
+REGISTRY = {"C04": ["qf_layouts"]}     # property id -> [stand-in name]; each name is a module bounded/<name>.py with run(tier, seed)
